@@ -850,11 +850,10 @@ def o_C14(tr: Trace) -> Fails:
                     f.add(f"C14:abandon-not-idle:{tr.kinds[h]}:{cond}:{e.exc}", {"cb": x, "out": e.out[:200]}, e.idx)
                 if e.exc is not None and e.exc not in PROTOCOL_EXC:
                     f.add(f"C14:fault-handling-raised:{tr.kinds[h]}:{cond}:{kind}:{e.exc}", {"cb": x}, e.idx)
-            # one fault event, one callback: identical callbacks twice in one call
-            if len(e.flts) != len(set(e.flts)):
-                dup = [x for x in set(e.flts) if e.flts.count(x) > 1][0]
-                kind, p = ind_parts(dup)
-                f.add(f"C14:fault-reported-more-than-once:{tr.kinds[h]}:{p[1]}:{kind}", {"cbs": e.flts}, e.idx)
+            # (how often a callback fires per declaration is decided against the model, which emits one
+            # callback per `_declare_fault` by construction: `classify_disagreement` in handler_props.py.
+            # A fault that persists — e.g. NAK limit reached with a handler that does not cancel — is
+            # declared again by every evaluation of the procedure, also twice within one call.)
             for x in e.inds:
                 n, p = ind_parts(x)
                 if p and p[0] == "None":
